@@ -8,7 +8,8 @@ def run(ctx):
     known = {k.get('id') for k in ctx.known_list if k.get('property') == 'C03'}
     def extra(ctx):
         rnd = random.Random(ctx.seed * 3 + 33)
-        return [ec.gen_minimality_history(rnd, 'C03_m%d' % i) for i in range(2500 if ctx.quick() else 20000)]
+        return [ec.gen_minimality_history(rnd, 'C03_m%d' % i) for i in range(2500 if ctx.quick() else 20000)] + \
+               [ec.motif_deps_swap(rnd, 'C03_swap%d' % i) for i in range(60)]      # a restat+deps command re-reports a different dependency list
     def orc(h, st, b, prev):
         bad = ec.oracle_c03(h, st, b, prev)
         if bad and 'restat-prune-ignores-recorded-deps' in known and all('did not run' in x for x in bad):
